@@ -9,6 +9,8 @@ import (
 	"crypto/x509/pkix"
 	"errors"
 	"fmt"
+	"github.com/opencontainers/go-digest"
+	ocispec "github.com/opencontainers/image-spec/specs-go/v1"
 	"strings"
 	"sync"
 	"testing"
@@ -58,6 +60,13 @@ type Case struct {
 	Plugin string `json:"plugin,omitempty"`
 	// Ctor "legacy": the verifier is built with the deprecated NewWithOptions (same options)
 	Ctor string `json:"ctor,omitempty"`
+	// Anchor: which certificate of the chain the trust store holds: 0 (default) the root, k > 0 the
+	// certificate k positions above the leaf ... ; -1 the leaf itself. Whatever the anchor, the
+	// validator is consulted with the complete chain
+	Anchor int `json:"anchor,omitempty"`
+	// BlobTwin: the verifier also carries a blob document whose statement has the SAME NAME as the
+	// OCI statement but this revocation action; a blob verification runs first on the same verifier
+	BlobTwin string `json:"blobTwin,omitempty"` // "" skip log enforce
 }
 
 var (
@@ -154,9 +163,20 @@ func check(c Case) (string, string) {
 		target["authenticTimestamp"] = "log"
 	}
 	level := kit.LevelFor(c.Base, target, false)
-	ts := mocks.NewTrustStore().Put(storeType, "x", ch.Root().Cert)
+	anchor := ch.Root().Cert
+	switch {
+	case c.Anchor == -1:
+		anchor = ch.Certs[0].Cert
+	case c.Anchor > 0 && c.Anchor < len(ch.Certs):
+		anchor = ch.Certs[c.Anchor].Cert
+	}
+	ts := mocks.NewTrustStore().Put(storeType, "x", anchor)
 	opts := kit.Options()
 	opts.OCITrustPolicy = kit.OCIDoc("p", level.SV(""), []string{storeType + ":x"}, []string{"*"})
+	if c.BlobTwin != "" {
+		tt := map[string]string{"authenticity": "enforce", "authenticTimestamp": target["authenticTimestamp"], "expiry": "enforce", "revocation": c.BlobTwin}
+		opts.BlobTrustPolicy = kit.BlobDoc("p", kit.LevelFor("strict", tt, false).SV(""), []string{storeType + ":x"}, []string{"*"})
+	}
 	if c.Iface == "client" {
 		opts.RevocationCodeSigningValidator = nil
 		opts.RevocationClient = rev.Client()
@@ -176,6 +196,14 @@ func check(c Case) (string, string) {
 	}
 	if err != nil {
 		return "harness", "verifier construction: " + err.Error()
+	}
+	if c.BlobTwin != "" {
+		if bv, ok := v.(notation.BlobVerifier); ok {
+			saved, savedErr := rev.Results, rev.Err
+			rev.Results, rev.Err = nil, nil
+			bv.VerifyBlob(context.Background(), func(digest.Algorithm) (ocispec.Descriptor, error) { return desc, nil }, env, notation.BlobVerifierVerifyOptions{SignatureMediaType: c.Format, TrustPolicyName: "p"})
+			rev.Results, rev.Err, rev.Calls = saved, savedErr, nil
+		}
 	}
 	if len(c.Warm) > 0 {
 		saved, savedErr := rev.Results, rev.Err
@@ -355,7 +383,13 @@ func record(rec *stats.Recorder, c Case) {
 	if c.Ctor != "" {
 		cl = append(cl, "constructor="+c.Ctor)
 	}
-	rec.Case(cl, nt, stats.Fingerprint(c.Subjects, c.Cancel, c.Validity, c.Plugin, c.Ctor, fmt.Sprint(c.Vector), fmt.Sprint(c.Warm), fmt.Sprint(c.Decor), c.ValErr, c.ErrWithR, c.Iface, c.Action, c.Base, c.Scheme, c.Format), func() any { return c })
+	if c.Anchor != 0 {
+		cl = append(cl, "trust-anchor-is-not-the-root")
+	}
+	if c.BlobTwin != "" {
+		cl = append(cl, "blob-statement-with-same-name", "blob-twin-revocation="+c.BlobTwin)
+	}
+	rec.Case(cl, nt, stats.Fingerprint(c.Subjects, c.Cancel, c.Validity, c.Plugin, c.Ctor, fmt.Sprint(c.Vector), fmt.Sprint(c.Warm), fmt.Sprint(c.Decor), c.ValErr, c.ErrWithR, c.Iface, c.Action, c.Base, c.Scheme, c.Format, c.Anchor, c.BlobTwin), func() any { return c })
 }
 
 func evaluate(t stats.Failer, rec *stats.Recorder, c Case) {
@@ -450,6 +484,15 @@ func TestC05_Decorated(t *testing.T) {
 		}
 		c.Plugin = rp.Pick(rt, "plugin", "", "", "", "ti-only")
 		c.Ctor = rp.Pick(rt, "ctor", "", "", "legacy")
+		if n >= 2 && rapid.IntRange(0, 2).Draw(rt, "anchorNotRoot") == 0 {
+			c.Anchor = rp.Pick(rt, "anchor", -1, 1, 1, n-2)
+			if c.Anchor == 0 {
+				c.Anchor = -1
+			}
+		}
+		if c.Ctor == "" {
+			c.BlobTwin = rp.Pick(rt, "blobTwin", "", "", "", "skip", "log", "enforce")
+		}
 		if rapid.IntRange(0, 11).Draw(rt, "cancel") == 0 {
 			c.Cancel = rp.Pick(rt, "cancelKind", "answer", "ctxerr")
 		}
